@@ -385,3 +385,16 @@ def r_options(ctx):
 def r8(ctx):
     from .c02 import r2 as payload_is_last_read
     payload_is_last_read(ctx)
+
+
+@rule("R-C13-9", min_instances=10, title="every legal ping (up to 125 bytes) and pong reaches the application: the receive loop's reply table")
+def r_sib_r_c13_9(ctx):
+    from .c07 import r1 as reply_table
+    reply_table(ctx)
+
+
+@rule("R-C13-10", min_instances=1, title="a fragmented text message is judged (and delivered) as a whole: validity of the reassembled payload, not of its last fragment")
+def r_sib_r_c13_10(ctx):
+    from .c04 import r6 as validate_reassembled
+    validate_reassembled(ctx)
+
